@@ -270,6 +270,19 @@ func (c *fnCtx) function() {
 						// it.c = nil on an object field: the nil pointer of that type is an argument
 						needExtras = append(needExtras, [2]string{"objnilval:" + sel.Sel.Name, sel.Sel.Name + "_nilptr"})
 					}
+					if outer, ok := v.Rhs[0].(*ast.CallExpr); ok {
+						if osel, ok := outer.Fun.(*ast.SelectorExpr); ok {
+							if inner, ok := osel.X.(*ast.CallExpr); ok {
+								if o, _ := c.objCallSyntax(inner, isRecvIdent); o != nil {
+									// it.c = it.m.Root().Min(): the last method is one of the stored-into field's
+									// own (it hands its receiver back, checked when the store is translated)
+									needExtras = append(needExtras, [2]string{"obj:" + o.field + "." + inner.Fun.(*ast.SelectorExpr).Sel.Name, o.field + "_" + inner.Fun.(*ast.SelectorExpr).Sel.Name})
+									needExtras = append(needExtras, [2]string{"obj:" + sel.Sel.Name + "." + osel.Sel.Name, sel.Sel.Name + "_" + osel.Sel.Name})
+									sc.fieldsUsed[sel.Sel.Name], sc.fieldsMut[sel.Sel.Name] = true, true
+								}
+							}
+						}
+					}
 				}
 			}
 		case *ast.IncDecStmt:
